@@ -7,6 +7,7 @@ import GFO.Model.Shared
 import GFO.Model.Grid
 import GFO.Model.Kernels
 import GFO.Model.Init
+import GFO.Model.Tracker
 open GFO GFO.Proto
 
 /-- one recorded backend interaction of the real run -/
@@ -49,6 +50,7 @@ structure M where
   steps : Array (Res × Rat) := #[]             -- objective oracle by global step index
   byCall : Array (Res × Rat) := #[]            -- objective oracle by objective-call index (if non-empty)
   sdict : Dict Res := []                       -- shared manager dict (C06)
+  trk : List (Nat × Tracker) := []             -- trackers by id (C19 / C15)
 
 def M.obj (m : M) : Obj := fun callIdx stepIdx _ =>
   if m.byCall.size > 0 then m.byCall.getD callIdx ({ score := .nan, metrics := [("ORACLE", "exhausted")] }, 0)
@@ -200,6 +202,26 @@ def exec (m : M) (cmd : String) : P (M × List String) := do
   | "initgrid" => do
     let dim ← pNat; let p ← pNat
     pure (m, [showList toString (initGridDim dim p)])
+  -- ---------------- trackers (GFO.Model.Tracker)
+  | "treset" => pure ({ m with trk := [] }, ["ok"])
+  | "t" => do
+    let id ← pNat
+    let op ← tok
+    let t0 : Tracker := match m.trk.find? (fun e => e.1 == id) with
+      | some e => e.2
+      | none => {}
+    let t1 : Tracker ← (match op with
+      | "pos" => do let p ← pList pInt; pure (t0.trackNewPos p)
+      | "setpos" => do let p ← pList pInt; pure { t0 with posNew := some p }
+      | "init" => do let s ← pF; pure (t0.evaluateInit s)
+      | "plain" => do let s ← pF; pure (t0.plainEvaluate s)
+      | "hc" => do let n ← pNat; let s ← pF; pure (t0.hcEvaluate n s)
+      | "stoch" => do let n ← pNat; let s ← pF; let a ← pBool; pure (t0.stochasticEvaluate n s a)
+      | "spiral" => do let s ← pF; pure (t0.spiralEvaluate s)
+      | _ => throw s!"tracker op? {op}")
+    let trk' := (m.trk.filter (fun e => e.1 != id)) ++ [(id, t1)]
+    let so := showOpt showPos
+    pure ({ m with trk := trk' }, [s!"new={so t1.posNew}:{showF t1.scoreNew} cur={so t1.posCurrent}:{showF t1.scoreCurrent} best={so t1.posBest}:{showF t1.scoreBest} valid={t1.scoresValid.length} trial={t1.nthTrial}"])
   -- ---------------- initial positions (GFO.Model.Init)
   | "setpos" => do
     let nd := m.sp.dims.length
